@@ -133,10 +133,10 @@ type Env struct {
 	Sites              []string
 	finalized          int
 	expectHarnessPanic bool
-	srcs   []*Src
-	recs   []*Rec
-	nextID int
-	notes  []string
+	srcs               []*Src
+	recs               []*Rec
+	nextID             int
+	notes              []string
 }
 
 func newEnv(k *simrt.Kernel, sc *Scn) *Env {
@@ -376,16 +376,17 @@ type Src struct {
 	ID   int
 	Spec SrcSpec
 
-	Subs       int
-	Live       int
-	MaxLive    int
-	Teardowns  int
-	TeardownAt []int
-	SubAt      []int
+	Subs             int
+	Live             int
+	MaxLive          int
+	Teardowns        int
+	TeardownAt       []int
+	SubAt            []int
 	EmitAfterRelease int
-	NilCtx     int
-	Ctxs       []context.Context
-	Done       int // producers that finished their script
+	DoubleTeardown   int
+	NilCtx           int
+	Ctxs             []context.Context
+	Done             int // producers that finished their script
 	// per subscription
 	subs []*srcSub
 	// multi-attempt: script for the n-th subscription (overrides Spec.Script)
@@ -406,8 +407,9 @@ type ProdCall struct {
 }
 
 type srcSub struct {
-	released bool
-	relStep  int
+	released  bool
+	relStep   int
+	teardowns int
 }
 
 func (e *Env) NewSrc(spec SrcSpec) *Src {
@@ -452,6 +454,9 @@ func (s *Src) play(dest ro.Observer[int], ctx context.Context, sub *srcSub, prod
 				return
 			}
 			s.EmitAfterRelease++
+		}
+		if s.Spec.Producers > 1 && st.K == "N" {
+			st.V += 1000 * prod // values stay attributable to one producer call
 		}
 		s.emit(dest, ctx, prod, st)
 	}
@@ -499,6 +504,25 @@ func (s *Src) Obs() ro.Observable[int] {
 		case "sync":
 			s.play(dest, ctx, sub, 0, script, false, false)
 			s.Done++
+		case "endless":
+			gap := 1
+			if len(script) > 0 && script[0].Gap > 0 {
+				gap = script[0].Gap
+			}
+			s.env.Go(fmt.Sprintf("src%d.endless", s.ID), func() {
+				for i := 0; ; i++ {
+					simSleep(time.Duration(gap) * Unit)
+					if sub.released {
+						return
+					}
+					s.emit(dest, ctx, 0, Step{K: "N", V: i})
+					if sub.released {
+						return
+					}
+				}
+			})
+		case "never":
+			// subscribes and stays silent
 		case "async", "timed":
 			timed := s.Spec.Mode == "timed"
 			for p := 0; p < prods; p++ {
@@ -514,6 +538,10 @@ func (s *Src) Obs() ro.Observable[int] {
 		return func() {
 			s.Teardowns++
 			s.Live--
+			sub.teardowns++
+			if sub.teardowns > 1 {
+				s.DoubleTeardown++
+			}
 			sub.released = true
 			sub.relStep = s.env.Step()
 			s.TeardownAt = append(s.TeardownAt, s.env.Step())
